@@ -82,7 +82,7 @@ def evaluate(chk, cases, tag='cases', shard=200):
 
 def forms(rng, x):
     p, i = G.key_of(x)
-    out = [['str', G.value_of(x)], ['tid', x], ['ident', x]]
+    out = [['str', G.value_of(x)], ['tid', x], ['ident', x], ['oterm', x], ['cterm', x]]
     if p and '_' not in p and ':' not in i and '_' not in i:
         out.append(['str', p + '_' + i])
     return out
